@@ -309,6 +309,11 @@ pub fn run_history(rt: &tokio::runtime::Runtime, p: &Profile, seed: u64, idx: u6
         }
         let mut d = Director::new(w.clone(), pool);
         d.sample_status();
+        // one history in eight starts from the "late surplus" state (creations in flight during a shrink while an
+        // idle object is present): several rules only apply there, and random actions reach it rarely
+        if p.w_resize > 0 && rng.chance(1, 8) {
+            late_surplus_prefix(&mut d, &mut rng);
+        }
         drive(&mut d, p, &mut rng).await;
         if !d.world().stop() {
             settle_and_probe(&mut d, p, &mut rng).await;
@@ -345,6 +350,40 @@ pub fn run_history(rt: &tokio::runtime::Runtime, p: &Profile, seed: u64, idx: u6
         counters: std::mem::take(&mut wl.counters),
         events: wl.callbacks + wl.action_no,
         cfg: cfg_desc,
+    }
+}
+
+/// Brings the pool into the state "more objects than max_size, one of them idle": an object is out, the other
+/// slots are taken by gets parked inside `create()`, the object comes back, the pool is shrunk, the creations
+/// finish. What follows (returns, resizes to the same / a neighbouring size, retains ...) is left to the random drive.
+fn late_surplus_prefix(d: &mut Director, rng: &mut Rng) {
+    let m = d.world().cfg.max_size;
+    if m < 2 {
+        return;
+    }
+    d.world().ev("-- directed prefix: late surplus".into());
+    d.world().bump("late_surplus_prefixes");
+    let kind = TaskKind { per_call: None, outer: None };
+    let _ = d.start_task(kind, vec![Script::Ok; 8]);
+    if d.held.is_empty() {
+        return;
+    }
+    let parked = rng.range(1, (m - 1) as u64) as usize;
+    for _ in 0..parked {
+        let _ = d.start_task(kind, vec![Script::Gate]);
+    }
+    if d.world().stop() || d.held.is_empty() {
+        return;
+    }
+    d.return_obj(0);
+    let n = rng.range(1, (m - 1) as u64) as usize;
+    d.resize(n);
+    let gates = d.world().open_gates();
+    for g in gates {
+        d.release(g, Script::Ok);
+    }
+    for t in d.ready_tasks() {
+        d.poll_task(t, format!("poll t{}", t));
     }
 }
 
